@@ -443,3 +443,20 @@ Lemma collection_item_unrefined : collection_item_class 0 3 <> 3 /\ family s_abc
 Proof. split; [discriminate|]. right. apply (all_bases_anc s_abcd (proj1 seed_sibling_hides)). cbn. auto. Qed.
 Lemma unpickled_ref_unrefined : unpickled_ref_class 0 3 <> 3.
 Proof. discriminate. Qed.
+
+(* ------------------------------------------------------------------ conditions on subclass attributes in a query over a base class *)
+Lemma family_trans s a b c : family s a b -> family s b c -> family s a c.
+Proof.
+  intros [->|Hab] [->|Hbc]; [now left | now right | now right | right; eapply anc_trans; eauto].
+Qed.
+
+Lemma sub_attr_query s : valid s = true -> forall e c k cond, e < length s -> k < length s -> root_of s k = root_of s e ->
+  family s e c ->
+  (sub_attr_selected s e c k cond = true <-> family s c k /\ cond = true).
+Proof.
+  intros Hv e c k cond He Hk Hr Hec. unfold sub_attr_selected.
+  rewrite !andb_true_iff, (criteria_valid s Hv e k He Hk Hr), <- (family_subclasses s Hv), (issub_family s Hv).
+  split.
+  - intros [[_ H] Hc]. now split.
+  - intros [H Hc]. repeat split; try assumption. eapply family_trans; eauto.
+Qed.
